@@ -56,7 +56,7 @@ var _ net.Conn = (*scriptConn)(nil)
 // schedWorld is a simWorld whose peers are driven by the harness instead of their FSM goroutines.
 type schedWorld struct {
 	*simWorld
-	batches map[int][][]*table.Path // per bot: batches drained from the peer's outgoing queue
+	batches map[int][][]*table.Path      // per bot: batches drained from the peer's outgoing queue
 	cancels map[*peer]context.CancelFunc // FSM contexts whose cancellation is deferred to teardown
 	stopped map[*peer]bool
 }
@@ -686,4 +686,3 @@ func c02SchedCheck(w *schedWorld, tag string) {
 		schedCheckExport(w, tag)
 	}
 }
-
